@@ -41,6 +41,11 @@ def apply(op, root, out):
             os.mkdir(R(op[1] + "/" + op[2]))
         elif k == "rmdir":
             os.rmdir(R(op[1]))
+        elif k == "mkdirp":
+            # mkdir -p: the child exists before the reader has seen the parent's record, so the reader's walk finds it
+            os.makedirs(R(op[1] + "/" + op[2]))
+        elif k == "rmdir2":
+            os.rmdir(R(op[1] + "/" + op[2]))
         elif k in ("rename", "rename-split"):
             os.rename(R(op[1]), R(op[2]))
         elif k == "moveout":
@@ -189,7 +194,7 @@ def run_history(ops, recursive=True, inject=None, small=False, batched=False):
 
 def histories(L):
     ops = [("mkdir", n) for n in NAMES] + [("mkdir2", "a", "b"), ("mkdir2", "b", "a"), ("rmdir", "a"), ("rename", "a", "b"), ("rename", "b", "a"), ("rename", "pre", "a"), ("moveout", "a"), ("moveout", "b"),
-                                            ("movein", "a"), ("rm-moved-out", "a"), ("touch", "a"), ("rename", "a", "a2"), ("mkdir2", "a2", "b")]
+                                            ("movein", "a"), ("rm-moved-out", "a"), ("touch", "a"), ("rename", "a", "a2"), ("mkdir2", "a2", "b"), ("mkdirp", "a", "b"), ("rmdir2", "a", "b")]
     return itertools.product(ops, repeat=L)
 
 
@@ -205,6 +210,10 @@ NAMED = {
     "moved out, back in under another name, renamed again": [("mkdir", "a"), ("moveout", "a"), ("moveback", "a", "b"), ("rename", "b", "a2"), ("mkdir2", "a2", "b")],
     "renamed, old name re-created and renamed away at once": [("mkdir", "a"), ("rename", "a", "b"), ("mkdir", "a"), ("rename", "a", "a2")],
     "rename read in two halves, old name re-created and renamed away at once": [("mkdir", "a"), ("rename-split", "a", "b"), ("mkdir", "a"), ("rename", "a", "a2")],
+    "nested burst, child removed and re-created": [("mkdirp", "a", "b"), ("rmdir2", "a", "b"), ("mkdir2", "a", "b")],
+    "nested burst, child removed, parent renamed, child re-created": [("mkdirp", "a", "b"), ("rmdir2", "a", "b"), ("rename", "a", "a2"), ("mkdir2", "a2", "b")],
+    "nested burst, whole tree removed and re-created one by one": [("mkdirp", "a", "b"), ("rmdir2", "a", "b"), ("rmdir", "a"), ("mkdir", "a"), ("mkdir2", "a", "b")],
+    "moved in, child removed and re-created": [("movein", "a"), ("rmdir2", "a", "sub"), ("mkdir2", "a", "sub")],
     "moved in, renamed at once, old name re-used": [("movein", "a"), ("rename", "a", "b"), ("mkdir", "a"), ("rename", "a", "a2")],
 }
 
@@ -215,7 +224,7 @@ def main():
         pr, kn = run_history([tuple(o) for o in c["ops"]], c.get("recursive", True), tuple(c["inject"]) if c.get("inject") else None, c.get("small", False), c.get("batched", False))
         replay_result(bool(pr if c.get("expect") != "known" else kn), (pr or kn)[:2])
     L = 3 if TIER == "quick" else 4
-    bat = Battery({"names": NAMES + ["pre", "a2"], "history length": L, "operations": "mkdir, nested mkdir, rmdir, rename, move out, move in, remove moved-out, touch", "pacing": "reader drained after every operation; + the same histories with one record per read_events() call; + renames right after arrival and file operations issued back to back (what the pacing condition allows), also with single renames read in two halves", "probes": "every directory of the final tree",
+    bat = Battery({"names": NAMES + ["pre", "a2"], "history length": L, "operations": "mkdir, nested mkdir, mkdir -p, rmdir, nested rmdir, rename, move out, move in, remove moved-out, touch", "pacing": "reader drained after every operation; + the same histories with one record per read_events() call; + renames right after arrival and file operations issued back to back (what the pacing condition allows), also with single renames read in two halves", "probes": "every directory of the final tree",
                    "faults": "ENOSPC/ENOENT at inotify_add_watch #1..#3 during nested creates"})
     hs = list(histories(L))
     rng.shuffle(hs)
